@@ -35,14 +35,17 @@ if os.path.exists(_kf):
 COMMON_ASSUMPTIONS = ["A1", "A6", "A7"]
 
 _TB = ["z3 SMT solver (cvc5 for string queries z3 leaves open)", "pyvc VC generator (/verif/pyvc)", "CPython ast module"]
-from .bounded import query_enum_check, roundtrip_check, gc_check, roles_check, atomic_check  # noqa: E402
+from .bounded import query_enum_check, roundtrip_check, gc_check, roles_check, atomic_check, script_check  # noqa: E402
 from .census import census_check  # noqa: E402
 
 _TBB = ["CPython executing the real functions", "in-memory lmdb/msgpack stand-ins (/verif/stubs)", "sqlite3", "the NIP-01 oracle in /verif/bounded/query_enum.py"]
 PROPERTIES = {
     "C02": {"level": "exploration", "trusted_base": _TBB + _TB, "assumptions": ["EV", "LMDBSTUB", "ENUM"], "extra_checks": [query_enum_check("C02")]},
     "C11": {"level": "exploration", "trusted_base": _TBB, "assumptions": ["EV", "LMDBSTUB", "ENUM"], "extra_checks": [query_enum_check("C11")]},
-    "C12": {"level": "proof", "trusted_base": _TB, "assumptions": ["EV", "LMDB", "SQL", "ENUM"], "extra_checks": [query_enum_check("C12")]},
+    "C12": {"level": "proof", "trusted_base": _TB, "assumptions": ["EV", "LMDB", "SQL", "ENUM", "STARTUP"],
+            "extra_checks": [query_enum_check("C12"),
+                             script_check("C12", "startup_enum.py", "configured-cap-in-effect", "bounded stand-in (fresh interpreters, real start-up paths)",
+                                          "one case per documented start-up order with a configuration file setting max_limit = 3")]},
     "C10": {"level": "proof", "trusted_base": _TB, "assumptions": ["EV", "LMDB"]},
     "C17": {"level": "proof", "trusted_base": _TB, "assumptions": ["A3", "GCSQL", "SQL", "GCENUM"], "extra_checks": [gc_check("C17")]},
     "C20": {"level": "proof", "trusted_base": _TB, "assumptions": ["TCP", "A4", "EV"]},
@@ -68,8 +71,10 @@ PROPERTIES = {
     "C18": {
         "level": "proof",
         "trusted_base": ["z3 4.x/5.1 SMT solver", "pyvc VC generator (this repository, /verif/pyvc)", "CPython ast module"],
-        "assumptions": ["A3"],
+        "assumptions": ["A3", "PARSEOPT"],
         "explanation": "",
+        "extra_checks": [script_check("C18", "parse_option_enum.py", "configured-rules-are-the-enforced-rules", "bounded stand-in (real RateLimiter.parse_option against an independent parser)",
+                                      "one case per option string of 1..3 distinct items out of 12 (all interval spellings, -1 and 0 rules)")],
     },
 }
 
@@ -158,6 +163,16 @@ def replay(prop, path):
         env = dict(os.environ)
         env["PYTHONPATH"] = ROOT
         p = subprocess.run([sys.executable, os.path.join(ROOT, "bounded", "atomic_enum.py")], env=env, capture_output=True, text=True)
+        print(p.stdout[-2000:])
+        if "FAIL " in p.stdout:
+            print("VIOLATION property=%s replay=%s" % (prop, path))
+            return 1
+        return 0
+    ex0 = (rp["instances"][0].get("example") or {}) if rp.get("instances") else {}
+    if rp["unit"].startswith("bounded:") and isinstance(ex0, dict) and ex0.get("script"):
+        env = dict(os.environ)
+        env["PYTHONPATH"] = ROOT
+        p = subprocess.run([sys.executable, os.path.join(ROOT, "bounded", ex0["script"])], env=env, capture_output=True, text=True)
         print(p.stdout[-2000:])
         if "FAIL " in p.stdout:
             print("VIOLATION property=%s replay=%s" % (prop, path))
